@@ -1037,6 +1037,7 @@ func (x *Exec) enterLoop(fr *Frame, li *LoopInfo, cur *State) {
 		if all || prefixMatches(k, prefixes) || k == "$alloc" && prefixes["$alloc"] {
 			old := cur.H[k]
 			nw := x.vc.fresh(fmt.Sprintf("H.%s@L%d", k, li.Ordinal), old.S)
+			x.keepMonotone(k, old, nw)
 			if k == "$alloc" {
 				x.vc.assume(iGe(nw, old))
 			} else if !all {
